@@ -611,7 +611,7 @@ func (pc *PkgContracts) genSpecFileX(imports []string, locals func(fs *FuncSpec,
 				return "", err
 			}
 			continue
-		case SKInline, SKIgnore:
+		case SKIgnore:
 			continue
 		}
 		pre := fs.allParams()
